@@ -181,7 +181,10 @@ func c08Maps(r *rt.Run) {
 	one := ast.Number(1)
 	na, _ := ast.Name("/a")
 	nb, _ := ast.Name("/b")
-	keys := []ast.Constant{ast.Number(1), ast.Number(2), ast.String("a"), na, ast.List([]ast.Constant{one}), ast.Number(65792), ast.Pair(&one, &one), ast.List([]ast.Constant{one, one})}
+	zero := ast.Number(0)
+	keys := []ast.Constant{ast.Number(1), ast.Number(2), ast.String("a"), na, ast.List([]ast.Constant{one}), ast.Number(65792), ast.Pair(&one, &one), ast.List([]ast.Constant{one, one}),
+		// compound keys of the same shape whose hashes are all equal (structures made of zeros and empty lists)
+		ast.ListNil, ast.List([]ast.Constant{zero}), ast.List([]ast.Constant{zero, zero}), ast.List([]ast.Constant{ast.ListNil})}
 	vals := []ast.Constant{ast.Number(7), ast.String("v")}
 	skeys := []ast.Constant{na, nb, name2("/a/b"), name2("/c")}
 	try := func(kind string, ks, vs []ast.Constant) {
